@@ -8,7 +8,7 @@ EXTENDS DecodeContract, TLC, Json
 VARIABLES l, bad, L, out
 Trace == ndJsonDeserialize("trace.ndjson")
 LineOK(ev) == ev.entry >= 1 /\ ev.j >= 1 /\ ev.content_ok
-EndOK(ev) == ev.finished /\ ~ev.hung /\ ev.err = "" /\ ev.lines = Len(out) /\ CompleteChk(out, L)
+EndOK(ev) == ev.finished /\ ~ev.hung /\ ev.err = "" /\ ev.lines = Len(out) /\ CompleteChk(out, L) /\ ev.second_ok
 \* adjacency / element order of a key's lines is how the implementation behaves (one block per record), not part of
 \* the property (a list line carries its index): a departure is reported as drift, not as a violation
 Drift(ev) == ev.e = "dend" /\ ~ContiguousOut(out)
